@@ -138,6 +138,11 @@ fn run(ctx: &Ctx) -> Run {
                 let r = set.first().map(|c| c.res).unwrap_or(1);
                 let up = if set.len() > 5000 { rng.below(2) as i32 } else { rng.below(3) as i32 };
                 (set, (r + up).min(MAX_RES))
+            } else if rng.below(40) == 1 {
+                // neighbours in id order that are far apart in the tree (ends of quintants and faces)
+                let set = gen::cell_set(&mut rng, "ends");
+                let r = set.first().map(|c| c.res).unwrap_or(2);
+                (set, (r + rng.below(3) as i32).min(MAX_RES))
             } else {
                 random_list(&mut rng)
             };
